@@ -209,12 +209,26 @@ func (t strSelfPanic) String() string {
 }
 
 type namedMap map[string]interface{}
+type namedBool bool
+type namedString string
+type namedInt int
+
+// a self-panicking Stringer that encoding/json cannot encode either (ids >= 2000)
+type strSelfPanicFn struct {
+	id int
+	F  func()
+}
+
+func (t strSelfPanicFn) String() string {
+	callLog = append(callLog, t.id)
+	panic(t)
+}
 type someStruct struct {
 	A int
 	b string
 }
 
-var otherNames = []string{"[]int", "struct", "chan", "func", "typed-nil-ptr", "named-map", "uint8", "float32", "[]interface{}", "map[string]int", "uint64", "nil-slice", "ptr-to-map", "complex128", "int16", "uint", "map[string]string", "[]interface{} of 20"}
+var otherNames = []string{"[]int", "struct", "chan", "func", "typed-nil-ptr", "named-map", "uint8", "float32", "[]interface{}", "map[string]int", "uint64", "nil-slice", "ptr-to-map", "complex128", "int16", "uint", "map[string]string", "[]interface{} of 20", "named-bool", "[]string of 12", "named-string", "named-int"}
 
 func mkOther(tag int) interface{} {
 	switch tag % len(otherNames) {
@@ -257,6 +271,18 @@ func mkOther(tag int) interface{} {
 			l[i] = i
 		}
 		return l
+	case 18:
+		return namedBool(true)
+	case 19:
+		l := make([]string, 12)
+		for i := range l {
+			l[i] = "tag" + strconv.Itoa(i)
+		}
+		return l
+	case 20:
+		return namedString("abc")
+	case 21:
+		return namedInt(1)
 	default:
 		return uint(7)
 	}
@@ -288,6 +314,9 @@ func (a *AV) Go(shared map[*AV]interface{}) interface{} {
 		}
 		return strOK{a.ID, a.S}
 	case AVStringerPanic:
+		if a.ID >= 2000 {
+			return strSelfPanicFn{a.ID, func() {}}
+		}
 		if a.ID >= 1000 {
 			return strSelfPanic{a.ID}
 		}
@@ -416,6 +445,8 @@ func snapshot(v interface{}, ids map[uintptr]int, sb *strings.Builder) {
 			fmt.Fprintf(sb, "strPanic:%d", x.id)
 		case strSelfPanic:
 			fmt.Fprintf(sb, "strSelfPanic:%d", x.id)
+		case strSelfPanicFn:
+			fmt.Fprintf(sb, "strSelfPanicFn:%d", x.id)
 		default:
 			fmt.Fprintf(sb, "%T:%s", v, panicTextV(v))
 		}
